@@ -637,4 +637,365 @@ theorem postLen_typed (s : Bool) (S : Schema) (rec : Loader) (hrec : LoaderOk s 
       apply leaf_of_scalar s f .bytes _ (by rw [← hby]; exact elemTy_plain f (by rw [hby]; simp))
       simp [scalarTypedB]
 
+theorem decoded_of_item (s : Bool) (S : Schema) (f : FieldD) (v : Val)
+    (h : itemsTypedB s S f [v] = true) : decodedOkB s S f v = true := by
+  cases v <;> first | exact h | (simp [itemsTypedB, leafTypedB] at h)
+
+theorem decodeValue_typed (s : Bool) (S : Schema) (rec : Loader) (hrec : LoaderOk s S rec) (hS : WfSchemaT S)
+    (f : FieldD) (pf : PField) (value : Val) (hw : wfFieldB S.length f = true)
+    (hfit : wireFits f pf.wt = true) (hb : s = true → WfBytes pf.payload)
+    (h : decodeValue S rec f pf = .ok value) : decodedOkB s S f value = true := by
+  have hcases := wireFits_cases f pf.wt hfit
+  unfold decodeValue at h
+  split at h
+  · -- a packed chunk
+    rename_i hc
+    simp only [Bool.and_eq_true, beq_iff_eq] at hc
+    cases hd : decodePacked f.ty pf.payload with
+    | error e => rw [hd] at h; simp at h
+    | ok vs =>
+      rw [hd] at h; simp only [bind_ok] at h; injection h with h; subst h
+      have hne : f.ty ≠ .message := by intro e; rw [e] at hc; simp [isPacked, packedTypes] at hc
+      have hrep : f.repeated = true := by
+        rcases hcases with ⟨h0, _⟩ | ⟨h0, _⟩ | ⟨_, h0⟩ | ⟨_, _, h0⟩
+        · rw [hc.1] at h0; simp [wireLenDelim] at h0
+        · rw [hc.1] at h0; simp [wireLenDelim] at h0
+        · rcases h0 with h0 | h0 | h0 | h0 <;> (rw [h0] at hc; simp [isPacked, packedTypes] at hc)
+        · exact h0
+      simp only [decodedOkB, hrep, Bool.true_and]
+      apply items_of_leaves
+      intro v hv
+      unfold decodePacked at hd
+      exact leaf_of_scalar s f f.ty v (elemTy_plain f hne) (decodePackedFuel_typed s f.ty hc.2 _ _ _ hb hd v hv)
+  · split at h
+    · -- varint
+      rename_i _ hv0
+      have hv0' : pf.wt = 0 := by simpa [wireVarint] using hv0
+      injection h with h; subst h
+      have hvt : wireVarintTypes.contains f.ty = true := by
+        rcases hcases with ⟨_, h0⟩ | ⟨h0, _⟩ | ⟨h0, _⟩ | ⟨h0, _⟩
+        · exact h0
+        · rw [hv0'] at h0; simp at h0
+        · rw [hv0'] at h0; simp at h0
+        · rw [hv0'] at h0; simp at h0
+      have hne : f.ty ≠ .message := by intro e; rw [e] at hvt; simp [wireVarintTypes] at hvt
+      exact decoded_of_leaf s S f _ (leaf_of_scalar s f f.ty _ (elemTy_plain f hne) (postVarint_typed s f.ty _ hvt))
+    · split at h
+      · -- fixed
+        have hne : f.ty ≠ .message := by intro e; rw [e] at h; simp [postFixed, fmtOf, packFmt] at h
+        exact decoded_of_leaf s S f _ (leaf_of_scalar s f f.ty _ (elemTy_plain f hne) (postFixed_typed s f.ty _ _ hb h))
+      · split at h
+        · -- one map entry
+          rename_i hmap
+          have hmap' : f.ty = .map := by simpa using hmap
+          have hwe := wfD_entry S f hw hmap'
+          obtain ⟨m1, m2, _⟩ := wfField_map hw hmap'
+          unfold isScalarTy at m1
+          simp only [Bool.and_eq_true, bne_iff_ne, ne_eq] at m1
+          cases hr : rec (entryD f) (freshState (entryD f)) pf.payload with
+          | error e => rw [hr] at h; simp at h
+          | ok est =>
+            rw [hr] at h; simp only [bind_ok] at h
+            injection h with h; subst h
+            have hst := hrec _ _ _ _ hwe hb (freshState_typed s S _) hr
+            have hk := slotsTyped_getD s S _ _ 0 _ hst.2 (show (entryD f).fields[0]? = some (keyFieldOf f) from rfl)
+            have hv := slotsTyped_getD s S _ _ 1 _ hst.2 (show (entryD f).fields[1]? = some (valFieldOf f) from rfl)
+            have ik := materialized_item s S (keyFieldOf f) (hwe _ (by simp [entryD_fields]))
+              (by simp [keyFieldOf, singularB, m1.2])
+              (by simp [keyFieldOf, noneOkB, FieldD.defKind, m1.1, m1.2]; cases hk' : f.mapK <;> simp [scalarDef, hk'] at m1 ⊢)
+              _ hk
+            have iv := materialized_item s S (valFieldOf f) (hwe _ (by simp [entryD_fields]))
+              (by simp [valFieldOf, singularB, m2])
+              (by
+                simp only [valFieldOf, noneOkB, FieldD.defKind, Bool.false_eq_true, if_false, Bool.false_or,
+                  Option.isSome_none, Bool.or_self]
+                have : (f.mapV == PType.map) = false := by simpa using m2
+                simp only [this, Bool.false_eq_true, if_false]
+                by_cases hm : f.mapV = .message
+                · simp only [hm, beq_self_eq_true, if_true]; cases f.mapVKind <;> simp [msgKindDef]
+                · have : (f.mapV == PType.message) = false := by simpa using hm
+                  simp only [this, Bool.false_eq_true, if_false]
+                  cases hv' : f.mapV <;> simp [scalarDef, hv'] at hm m2 ⊢)
+              _ hv
+            simp only [decodedOkB, hmap, Bool.true_and, Bool.and_eq_true]
+            exact ⟨ik, iv⟩
+        · rename_i hnp hn0 hnf hnm
+          have hnm' : f.ty ≠ .map := by simpa using hnm
+          apply decoded_of_item s S f _
+          apply postLen_typed s S rec hrec hS f _ _ hw _ hb h
+          rcases hcases with ⟨h0, _⟩ | ⟨h0, _⟩ | ⟨_, h0⟩ | ⟨h0, h1, _⟩
+          · simp [h0, wireVarint] at hn0
+          · rcases h0 with h0 | h0 <;> simp [h0, wireFixed32, wireFixed64] at hnf
+          · rcases h0 with h0 | h0 | h0 | h0
+            · exact Or.inl h0
+            · exact Or.inr (Or.inl h0)
+            · exact Or.inr (Or.inr h0)
+            · exact absurd h0 hnm'
+          · simp [h0, h1, wireLenDelim] at hnp
+
+/-! ### the steps of the loop of `Message.load` -/
+
+theorem prepCurrent_typed (s : Bool) (S : Schema) (d : MsgD) (st : MState) (idx : Nat) (f : FieldD)
+    (hf : d.fields[idx]? = some f) (hw : wfFieldB S.length f = true) (h : StTyped s S d st) :
+    StTyped s S d (prepCurrent S d st idx f) := by
+  unfold prepCurrent
+  split
+  · exact setAttr_typed s S d st idx f _ hf h (defaultOf_typed s S f hw)
+  · exact ⟨h.1, slotsTyped_set s S _ _ idx f _ h.2 hf
+      (materialize_typed s S f hw _ (slotsTyped_getD s S _ _ idx f h.2 hf))⟩
+
+theorem getD_setAt_self (xs : List Val) (i : Nat) (v : Val) (h : i < xs.length) :
+    (setAt xs i v).getD i .ph = v := by
+  unfold setAt
+  simp [List.getD_eq_getElem?_getD, h]
+
+theorem resetGroup_length (g idx : Nat) : ∀ (fs : List FieldD) (ss : List Val) (j : Nat),
+    (resetGroup g idx fs ss j).length = ss.length
+  | [], ss, _ => by cases ss <;> simp [resetGroup]
+  | _ :: _, [], _ => by simp [resetGroup]
+  | f :: fs, v :: vs, j => by simp [resetGroup, resetGroup_length g idx fs vs (j + 1)]
+
+theorem setAttr_slot (S : Schema) (fs : List FieldD) (st : MState) (idx : Nat) (f : FieldD) (v : Val)
+    (hf : fs[idx]? = some f) (hl : idx < st.slots.length) :
+    (setAttr S fs st idx v).slots.getD idx .ph = markEmpty S v := by
+  unfold setAttr
+  simp only [hf]
+  cases f.group with
+  | none => exact getD_setAt_self _ _ _ hl
+  | some g => exact getD_setAt_self _ _ _ (by rw [resetGroup_length]; exact hl)
+
+/-- after the attribute read, the slot of a repeated field holds a list -/
+theorem prepCurrent_list (s : Bool) (S : Schema) (d : MsgD) (st : MState) (idx : Nat) (f : FieldD)
+    (hf : d.fields[idx]? = some f) (hw : wfFieldB S.length f = true) (h : StTyped s S d st)
+    (hr : f.repeated = true) : ∃ xs, (prepCurrent S d st idx f).slots.getD idx .ph = .list xs := by
+  have hlen := slotsTyped_length s S _ _ h.2
+  have hidx : idx < st.slots.length := by
+    rw [hlen]; exact (List.getElem?_eq_some_iff.mp hf).1
+  have hdef : defaultOf S f = .list [] := by simp [defaultOf, FieldD.defKind, hr, defaultOfKind]
+  unfold prepCurrent
+  split
+  · rw [setAttr_slot S _ _ _ f _ hf hidx, hdef]; exact ⟨[], rfl⟩
+  · simp only
+    rw [getD_setAt_self _ _ _ hidx]
+    have hslot := slotsTyped_getD s S _ _ idx f h.2 hf
+    generalize st.slots.getD idx .ph = v at hslot
+    have hopt := wfField_rep hw hr
+    cases v with
+    | ph => exact ⟨[], by simp [materialize, hdef]⟩
+    | none => rw [slotTypedB] at hslot; simp [noneOkB, hopt, FieldD.defKind, hr] at hslot
+    | list xs => exact ⟨xs, rfl⟩
+    | dict ks vs => rw [slotTypedB] at hslot; simp [hr] at hslot
+    | msg c sl ow unk cur => rw [slotTypedB] at hslot; simp [singularB, hr] at hslot
+    | _ => simp [slotTypedB, singularB, hr] at hslot
+
+
+theorem storeValue_typed (s : Bool) (S : Schema) (d : MsgD) (st1 st' : MState) (idx : Nat) (f : FieldD)
+    (value : Val) (hf : d.fields[idx]? = some f) (h : StTyped s S d st1)
+    (hv : decodedOkB s S f value = true)
+    (hcur : f.repeated = true → ∃ xs, st1.slots.getD idx .ph = .list xs)
+    (hs : storeValue S d st1 idx f value = .ok st') : StTyped s S d st' := by
+  have hslot := slotsTyped_getD s S _ _ idx f h.2 hf
+  unfold storeValue at hs
+  simp only at hs
+  split at hs
+  · -- map entry
+    split at hs
+    · rename_i ks vs k v hc
+      injection hs with hs; subst hs
+      rw [hc, slotTypedB] at hslot
+      simp only [Bool.and_eq_true, beq_iff_eq, Bool.not_eq_true'] at hslot
+      obtain ⟨⟨⟨⟨h1, h2⟩, h3⟩, h4⟩, h5⟩ := hslot
+      simp only [decodedOkB, Bool.and_eq_true] at hv
+      obtain ⟨i1, i2, i3⟩ := dictInsert_typed s S _ _ k v hv.1.2 hv.2 ks vs h3 h4 h5
+      refine ⟨h.1, slotsTyped_set s S _ _ idx f _ h.2 hf ?_⟩
+      rw [slotTypedB]
+      simp [h1, h2, i1, i2, i3]
+    · simp at hs
+  · rename_i hnm
+    have hnm' : f.ty ≠ .map := by simpa using hnm
+    split at hs
+    · rename_i xs hc
+      rw [hc, slotTypedB] at hslot
+      simp only [Bool.and_eq_true] at hslot
+      split at hs
+      · rename_i ys
+        injection hs with hs; subst hs
+        simp only [decodedOkB, Bool.and_eq_true] at hv
+        refine ⟨h.1, slotsTyped_set s S _ _ idx f _ h.2 hf ?_⟩
+        rw [slotTypedB, items_append]
+        simp [hslot.1, hslot.2, hv.2]
+      · rename_i hny
+        injection hs with hs; subst hs
+        have hy : itemsTypedB s S f [value] = true := by
+          cases value with
+          | list ys => exact absurd rfl (hny ys)
+          | dict ks vs => simp [decodedOkB, hnm'] at hv
+          | _ => exact hv
+        refine ⟨h.1, slotsTyped_set s S _ _ idx f _ h.2 hf ?_⟩
+        rw [slotTypedB, items_append]
+        simp [hslot.1, hslot.2, hy]
+    · rename_i hnl
+      injection hs with hs; subst hs
+      apply setAttr_typed s S d st1 idx f value hf h
+      have hrep : f.repeated = false := by
+        cases hr : f.repeated with
+        | false => rfl
+        | true => obtain ⟨xs, hx⟩ := hcur hr; exact absurd hx (hnl xs)
+      cases value with
+      | list vs =>
+        simp only [decodedOkB, Bool.and_eq_true] at hv
+        rw [hrep] at hv; simp at hv
+      | dict ks vs => simp [decodedOkB, hnm'] at hv
+      | _ => exact item_slot s S f _ hv (by simp [singularB, hrep, hnm'])
+
+theorem applyField_typed (s : Bool) (S : Schema) (rec : Loader) (hrec : LoaderOk s S rec) (hS : WfSchemaT S)
+    (d : MsgD) (hd : WfD S d) (st st' : MState) (pf : PField) (hb : s = true → WfBytes pf.payload)
+    (h : StTyped s S d st) (ha : applyField S rec d st pf = .ok st') : StTyped s S d st' := by
+  unfold applyField at ha
+  split at ha
+  · injection ha with ha; subst ha; exact h
+  · rename_i idx hidx
+    split at ha
+    · simp at ha
+    · rename_i f hf
+      have hw := hd f (List.mem_of_getElem? hf)
+      split at ha
+      · injection ha with ha; subst ha; exact h
+      · rename_i hfit
+        have hfit' : wireFits f pf.wt = true := by simpa using hfit
+        cases hv : decodeValue S rec f pf with
+        | error e => rw [hv] at ha; simp at ha
+        | ok value =>
+          rw [hv] at ha; simp only [bind_ok] at ha
+          exact storeValue_typed s S d _ st' idx f value hf (prepCurrent_typed s S d st idx f hf hw h)
+            (decodeValue_typed s S rec hrec hS f pf value hw hfit' hb hv)
+            (prepCurrent_list s S d st idx f hf hw h) ha
+
+theorem foldFields_typed (s : Bool) (S : Schema) (rec : Loader) (hrec : LoaderOk s S rec) (hS : WfSchemaT S)
+    (d : MsgD) (hd : WfD S d) (pfs : List PField) (hb : s = true → ∀ pf ∈ pfs, WfBytes pf.payload)
+    (st st' : MState) (h : StTyped s S d st) (hf : foldFields S rec d st pfs = .ok st') :
+    StTyped s S d st' := by
+  induction pfs generalizing st with
+  | nil => rw [foldFields] at hf; injection hf with hf; subst hf; exact h
+  | cons pf pfs ih =>
+    rw [foldFields] at hf
+    cases ha : applyField S rec d st pf with
+    | error e => rw [ha] at hf; simp at hf
+    | ok s1 =>
+      rw [ha] at hf; simp only [bind_ok] at hf
+      exact ih (fun hs x hx => hb hs x (by simp [hx])) s1
+        (applyField_typed s S rec hrec hS d hd st s1 pf (fun hs => hb hs pf (by simp)) h ha) hf
+
+/-- the payload of every record is made of bytes of the input -/
+theorem loadFields_payload_mem (bs : Bytes) (pfs : List PField) (h : loadFields bs = .ok pfs) :
+    ∀ pf ∈ pfs, ∀ b ∈ pf.payload, b ∈ bs := by
+  induction hn : bs.length using Nat.strongRecOn generalizing bs pfs with
+  | _ n ih =>
+    cases bs with
+    | nil => rw [loadFields_nil] at h; simp at h; subst h; intro _ hm; simp at hm
+    | cons b0 bs =>
+      cases hlf : loadField (b0 :: bs) with
+      | error e => rw [loadFields_cons_err _ e (by simp) hlf] at h; simp at h
+      | ok r =>
+        obtain ⟨pf, rest⟩ := r
+        rw [loadFields_cons _ pf rest (by simp) hlf] at h
+        have ok := loadField_ok _ _ _ hlf
+        cases hr : loadFields rest with
+        | error e => rw [hr] at h; simp [Except.bind] at h
+        | ok pfs' =>
+          rw [hr] at h
+          simp [Except.bind] at h
+          subst h
+          have hlen : rest.length < n := by
+            have := congrArg List.length ok.raw_rest
+            simp only [List.length_append] at this
+            have := ok.raw_pos
+            omega
+          intro x hx
+          simp at hx
+          rcases hx with hx | hx
+          · subst hx
+            intro b hb
+            -- the payload is a slice of the input
+            unfold loadField at hlf
+            split at hlf
+            · simp at hlf
+            · rename_i nw k hk
+              split at hlf
+              · simp at hlf
+              · split at hlf
+                · simp at hlf
+                · rename_i v p c hp
+                  simp at hlf
+                  obtain ⟨h1, h2⟩ := hlf
+                  subst h1
+                  simp only at hb
+                  have hsub : ∀ b ∈ p, b ∈ List.drop k (b0 :: bs) := by
+                    unfold loadPayload at hp
+                    split at hp
+                    · split at hp
+                      · simp at hp
+                      · simp at hp; obtain ⟨_, h3, _⟩ := hp; subst h3; intro b hb; simp at hb
+                    · split at hp
+                      · split at hp
+                        · simp at hp
+                        · simp at hp; obtain ⟨_, h3, _⟩ := hp; subst h3
+                          intro b hb; exact List.mem_of_mem_take hb
+                      · split at hp
+                        · split at hp
+                          · simp at hp
+                          · split at hp
+                            · simp at hp
+                            · simp at hp; obtain ⟨_, h3, _⟩ := hp; subst h3
+                              intro b hb
+                              have := List.mem_of_mem_take hb
+                              rw [← List.drop_drop] at this
+                              exact List.mem_of_mem_drop this
+                        · split at hp
+                          · split at hp
+                            · simp at hp
+                            · simp at hp; obtain ⟨_, h3, _⟩ := hp; subst h3
+                              intro b hb; exact List.mem_of_mem_take hb
+                          · simp at hp
+                  exact List.mem_of_mem_drop (hsub b hb)
+          · intro b hb
+            have := ih rest.length hlen rest pfs' hr rfl x hx b hb
+            rw [← ok.raw_rest]
+            exact List.mem_append_right _ this
+
+theorem loadInto_typed (s : Bool) (S : Schema) (hS : WfSchemaT S) :
+    ∀ fuel : Nat, LoaderOk s S (loadInto S fuel) := by
+  intro fuel
+  induction fuel with
+  | zero => intro d st bs st' _ _ _ hl; simp [loadInto] at hl
+  | succ fuel ih =>
+    intro d st bs st' hd hb h hl
+    rw [loadInto_succ] at hl
+    cases hp : loadFields bs with
+    | error e => rw [hp] at hl; simp at hl
+    | ok pfs =>
+      rw [hp] at hl; simp only [bind_ok] at hl
+      have hmem := loadFields_payload_mem bs pfs hp
+      exact foldFields_typed s S _ ih hS d hd pfs
+        (fun hs pf hpf b hbm => hb hs b (hmem pf hpf b hbm)) { st with onWire := true } st' ⟨h.1, h.2⟩ hl
+
+/-- `msgTypedB s S m` for everything `parse` returns -/
+theorem parse_typed (s : Bool) (S : Schema) (hS : WfSchemaT S) (c : Nat) (bs : Bytes) (m : Val)
+    (hb : s = true → WfBytes bs) (h : parse S c bs = .ok m) : msgTypedB s S m = true := by
+  unfold parse at h
+  cases hd : S[c]? with
+  | none => simp [fresh, parseInto, hd] at h
+  | some d =>
+    rw [fresh_eq S c d hd] at h
+    simp only [parseInto, hd] at h
+    cases hl : loadInto S (bs.length + 1) d
+        { slots := (freshState d).slots, onWire := false, unknown := [], cur := (freshState d).cur } bs with
+    | error e => rw [hl] at h; simp at h
+    | ok st =>
+      rw [hl] at h; simp only [bind_ok] at h
+      injection h with h; subst h
+      have hst := loadInto_typed s S hS _ d _ bs st (wfSchema_class S hS c d hd) hb
+        (freshState_typed s S d) hl
+      simp [MState.toVal, msgTypedB, hd, hst.1, hst.2]
+
 end Bp
